@@ -17,6 +17,7 @@ const (
 func (its *MongoCollections) GetNextCollectionNum(ctx iface.OrdaContext) (int32, errors.OrdaError) {
 	opts := options.FindOneAndUpdate()
 	opts.SetUpsert(true)
+	opts.SetReturnDocument(options.After)
 	var update = bson.M{
 		"$inc": bson.M{schema.CounterDocFields.Num: 1},
 	}
